@@ -831,10 +831,18 @@ func (t *tScreen) drawCell(x, y int) int {
 			t.cy = y
 			t.cx = x - 1
 			// repaint what we scribbled over: the cell at x-1, or the
-			// wide character starting at x-2 whose second half it is
-			rx := x - 1
-			if _, _, _, w := t.cells.GetContent(x-2, y); w > 1 {
-				rx = x - 2
+			// wide character to its left whose second half it is (found
+			// by walking the row the way draw does)
+			rx := 0
+			for rx < x-1 {
+				_, _, _, w := t.cells.GetContent(rx, y)
+				if w < 1 {
+					w = 1
+				}
+				if rx+w > x-1 {
+					break
+				}
+				rx += w
 			}
 			t.cells.SetDirty(rx, y, true)
 			_ = t.drawCell(rx, y)
